@@ -19,6 +19,7 @@ type dbound struct {
 	startVal  ssa.Value  // value form
 	endCell   *ssa.Alloc
 	notes     []string
+	assume    func(ssa.Value) (int64, bool) // lower bounds taken from the property's preconditions
 }
 
 const negInf = int64(-1) << 60
@@ -104,6 +105,11 @@ func (d *dbound) lower0(v ssa.Value, at *ssa.BasicBlock, seen map[ssa.Value]bool
 	case *ssa.Call:
 		if b, isB := x.Call.Value.(*ssa.Builtin); isB && (b.Name() == "len" || b.Name() == "cap") {
 			return 0
+		}
+	}
+	if d.assume != nil {
+		if k, ok := d.assume(v); ok {
+			return k
 		}
 	}
 	return negInf
@@ -351,7 +357,26 @@ func RuleI1(c *Ctx) {
 			c.Und("I1", key, work.Pos(), "cannot show that every range handed to the work function is non-empty (end - start >= 1): "+strings.Join(parts, "; ")+" — a task may be started with an empty or inverted range")
 		}
 	}
-	c.FloorN("I1", 1, n, "spawn sites calling work")
+	// work called by Execute itself (a range processed on the calling goroutine)
+	di := 0
+	for _, ci := range core.CallsIn(fn) {
+		call, isCall := ci.(*ssa.Call)
+		cc := ci.Common()
+		if !isCall || cc.IsInvoke() || core.Callee(cc) != nil || !isFuncParamValue(cc.Value) || len(cc.Args) != 2 {
+			continue
+		}
+		n++
+		key := fmt.Sprintf("Execute:inline-call#%d:end-start>=1", di)
+		di++
+		d := &dbound{fn: fn, startVal: call.Call.Args[0]}
+		lo := d.diff(call.Call.Args[1], map[ssa.Value]bool{})
+		if lo >= 1 {
+			c.OK("I1", key, call.Pos(), "end-start >= "+showBound(lo))
+		} else {
+			c.Und("I1", key, call.Pos(), "cannot show that the range Execute processes itself is non-empty (end - start >= "+showBound(lo)+"): with an empty input the work function is still called")
+		}
+	}
+	c.FloorN("I1", 1, n, "calls of work")
 }
 
 func showBound(l int64) string {
@@ -359,4 +384,57 @@ func showBound(l int64) string {
 		return "unknown"
 	}
 	return fmt.Sprint(l)
+}
+
+// RuleI2 — divisors of the executor's range arithmetic are at least 1.
+func RuleI2(c *Ctx) {
+	c.Rule("I2", "no division by zero in parallel.Execute: under the property's preconditions (iteration count >= 0, worker limit >= 1, NumCPU >= 1) an interval analysis shows every divisor of a / or % to be >= 1 — in particular for an empty input (nbIterations = 0), which the batch helpers pass on")
+	fn := c.P.Fn("common/parallel", "", "Execute")
+	if fn == nil {
+		c.Unresolved("I2", "parallel.Execute")
+		return
+	}
+	c.Saw(core.FnName(fn))
+	d := &dbound{fn: fn}
+	d.assume = func(v ssa.Value) (int64, bool) {
+		switch x := v.(type) {
+		case *ssa.Parameter:
+			if x.Name() == "nbIterations" {
+				return 0, true
+			}
+		case *ssa.Call:
+			if f := x.Call.StaticCallee(); f != nil && f.Pkg != nil && f.Pkg.Pkg.Path() == "runtime" && f.Name() == "NumCPU" {
+				return 1, true
+			}
+		case *ssa.UnOp:
+			// maxCpus[0]: the explicit worker limit, m >= 1 by the property's quantifier
+			if ia, ok := x.X.(*ssa.IndexAddr); ok && x.Op == token.MUL {
+				if p, isP := ia.X.(*ssa.Parameter); isP && p.Name() == "maxCpus" {
+					return 1, true
+				}
+			}
+		}
+		return 0, false
+	}
+	n := 0
+	for _, f := range core.Family(fn) {
+		core.AllInstrs(f, func(i ssa.Instruction) {
+			bo, ok := i.(*ssa.BinOp)
+			if !ok || (bo.Op != token.QUO && bo.Op != token.REM) {
+				return
+			}
+			if _, isC := bo.Y.(*ssa.Const); isC {
+				return
+			}
+			n++
+			key := fmt.Sprintf("Execute:divisor@%s", c.relInFn(fn, bo.Pos()))
+			lo := d.lower(bo.Y, bo.Block(), map[ssa.Value]bool{})
+			if lo >= 1 {
+				c.OK("I2", key, bo.Pos(), fmt.Sprintf("divisor >= %d", lo))
+			} else {
+				c.Und("I2", key, bo.Pos(), fmt.Sprintf("cannot show that the divisor of %s is at least 1 (lower bound %s): with an empty input or more workers than iterations the executor may divide by zero", bo.Op, showBound(lo)))
+			}
+		})
+	}
+	c.FloorN("I2", 1, n, "divisions in the executor")
 }
